@@ -184,6 +184,15 @@ package model
 //@   modifies nothing
 //@   ensures result == bstr(this.ghost_acc)
 
+// ---- string theory (C13 extension). govc treats strings as opaque values with len, s[i], s[a:b], +, ==
+// and links none of them. The byte-level meaning of these operations in Go (facts about the language,
+// not about /repo; listed in props/C13.json `assumptions`) is assumed where the round trip is proved:
+// the assume-at clauses of (Name).String. They are NOT file-level axioms, so that no other function's
+// proof can lean on them. seqx(x, y): same length and same bytes.
+//@ spec func seqx(x string, y string) bool := len(x) == len(y) && forall j int :: 0 <= j && j < len(x) ==> x[j] == y[j]
+//@ spec func rtZ(h string, n string) string = h + sbyte(47) + n
+//@ spec func rtY(h string, n string, m string) string = h + sbyte(47) + n + sbyte(47) + m
+
 //@ spec func namestr1(h string) string = ite(h != "", h + sbyte(47), "")
 //@ spec func namestr2(h string, n string) string = ite(n != "", namestr1(h) + n + sbyte(47), namestr1(h))
 //@ spec func namestr(h string, n string, m string, t string) string = ite(t != "", namestr2(h, n) + m + sbyte(58) + t, namestr2(h, n) + m)
@@ -191,6 +200,49 @@ package model
 // String prints host/namespace/model:tag, leaving out empty host, namespace and tag.
 //@ func (Name).String
 //@   ensures result == namestr(n.Host, n.Namespace, n.Model, n.Tag)
+// string theory, assumed here only (see the block "string theory" below): concatenation; substring;
+// extensionality (behind the marker seqx, so that it is applied only where a clause asks for it);
+// strings.LastIndex / Contains / Index on the spec level (the facts the trusted contract of
+// strings.LastIndex states at its call sites: for a one-byte separator the position of its last
+// occurrence; an occurrence of t in s starts at sindex(s, t))
+//@   assume-at return : (forall a string, b string :: len(a + b) == len(a) + len(b)) && (forall a string, b string, j int :: 0 <= j && j < len(a) + len(b) ==> (a + b)[j] == ite(j < len(a), a[j], b[j - len(a)]))
+//@   assume-at return : (forall s string, lo int, hi int :: 0 <= lo && lo <= hi && hi <= len(s) ==> len(s[lo:hi]) == hi - lo) && (forall s string, lo int, hi int, j int :: 0 <= lo && lo <= hi && hi <= len(s) && 0 <= j && j < hi - lo ==> s[lo:hi][j] == s[lo + j])
+//@   assume-at return : forall x string, y string :: seqx(x, y) ==> x == y
+//@   assume-at return : (forall s string, c string :: len(c) == 1 ==> -1 <= slastindex(s, c) && slastindex(s, c) < len(s) && (slastindex(s, c) >= 0 ==> s[slastindex(s, c)] == c[0]) && (forall j int :: slastindex(s, c) < j && j < len(s) ==> s[j] != c[0])) && (forall s string, t string :: scontains(s, t) ==> 0 <= sindex(s, t) && sindex(s, t) + len(t) <= len(s) && (forall i int :: 0 <= i && i < len(t) ==> s[sindex(s, t) + i] == t[i]))
+// ---- C13 extension: the print/parse round trip for ALL accepted names (replaces the bounded stand-in) ----
+// For a fully qualified name the printed string S = H "/" N "/" M ":" T is read back by
+// ParseNameBare with exactly the parts H, N, M, T: the pnb* functions below are ParseNameBare's
+// PROVED functional contract (result.Tag == pnbtag(s), ...), so post.2 is
+// ParseNameBare(n.String()) == n for every accepted n. Stepping stones (assert-at return: proved,
+// then assumed): where the last ':' and the last '/' of S, of S minus the tag, of S minus model and
+// tag lie, and what the substrings cut there are (seqx = same length and same bytes; strext: such
+// strings are equal). String theory used: see the axioms in the block "string theory" below.
+//@   assert-at return : fqname(n.Host, n.Namespace, n.Model, n.Tag) ==> result == rtY(n.Host, n.Namespace, n.Model) + sbyte(58) + n.Tag && len(result) == (len(n.Host) + len(n.Namespace) + len(n.Model) + 2) + 1 + len(n.Tag) && len(rtY(n.Host, n.Namespace, n.Model)) == (len(n.Host) + len(n.Namespace) + len(n.Model) + 2) && len(rtZ(n.Host, n.Namespace)) == (len(n.Host) + len(n.Namespace) + 1)
+//@   assert-at return : fqname(n.Host, n.Namespace, n.Model, n.Tag) ==> n.Host != "" && n.Namespace != "" && n.Model != "" && n.Tag != "" && rtY(n.Host, n.Namespace, n.Model) != "" && rtZ(n.Host, n.Namespace) != ""
+//@   assert-at return : fqname(n.Host, n.Namespace, n.Model, n.Tag) ==> (forall j int :: 0 <= j && j < len(n.Tag) ==> n.Tag[j] != 47 && n.Tag[j] != 58) && (forall j int :: 0 <= j && j < len(n.Model) ==> n.Model[j] != 47 && n.Model[j] != 58) && (forall j int :: 0 <= j && j < len(n.Namespace) ==> n.Namespace[j] != 47 && n.Namespace[j] != 58) && (forall j int :: 0 <= j && j < len(n.Host) ==> n.Host[j] != 47)
+//@   assert-at return : fqname(n.Host, n.Namespace, n.Model, n.Tag) ==> rtZ(n.Host, n.Namespace)[len(n.Host)] == 47 && (forall k int :: len(n.Host) < k && k < (len(n.Host) + len(n.Namespace) + 1) ==> rtZ(n.Host, n.Namespace)[k] != 47) && (forall k int :: 0 <= k && k < len(n.Host) ==> rtZ(n.Host, n.Namespace)[k] == n.Host[k])
+//@   assert-at return : fqname(n.Host, n.Namespace, n.Model, n.Tag) ==> rtY(n.Host, n.Namespace, n.Model)[(len(n.Host) + len(n.Namespace) + 1)] == 47 && (forall k int :: (len(n.Host) + len(n.Namespace) + 1) < k && k < (len(n.Host) + len(n.Namespace) + len(n.Model) + 2) ==> rtY(n.Host, n.Namespace, n.Model)[k] != 47 && rtY(n.Host, n.Namespace, n.Model)[k] != 58) && (forall k int :: 0 <= k && k < (len(n.Host) + len(n.Namespace) + 1) ==> rtY(n.Host, n.Namespace, n.Model)[k] == rtZ(n.Host, n.Namespace)[k])
+//@   assert-at return : fqname(n.Host, n.Namespace, n.Model, n.Tag) ==> result[(len(n.Host) + len(n.Namespace) + len(n.Model) + 2)] == 58 && (forall k int :: (len(n.Host) + len(n.Namespace) + len(n.Model) + 2) < k && k < len(result) ==> result[k] != 47 && result[k] != 58) && (forall k int :: 0 <= k && k < (len(n.Host) + len(n.Namespace) + len(n.Model) + 2) ==> result[k] == rtY(n.Host, n.Namespace, n.Model)[k])
+//@   assert-at return : fqname(n.Host, n.Namespace, n.Model, n.Tag) ==> slastindex(result, ":") == (len(n.Host) + len(n.Namespace) + len(n.Model) + 2)
+//@   assert-at return : fqname(n.Host, n.Namespace, n.Model, n.Tag) ==> slastindex(result, "/") == (len(n.Host) + len(n.Namespace) + 1)
+//@   assert-at return : fqname(n.Host, n.Namespace, n.Model, n.Tag) ==> seqx(result[slastindex(result, ":")+1:len(result)], n.Tag) && seqx(result[0:slastindex(result, ":")], rtY(n.Host, n.Namespace, n.Model))
+//@   assert-at return : fqname(n.Host, n.Namespace, n.Model, n.Tag) ==> result[slastindex(result, ":")+1:len(result)] == n.Tag && result[0:slastindex(result, ":")] == rtY(n.Host, n.Namespace, n.Model)
+//@   assert-at return : fqname(n.Host, n.Namespace, n.Model, n.Tag) ==> pnbtag(result) == n.Tag && pnbr1(result) == rtY(n.Host, n.Namespace, n.Model)
+//@   assert-at return : fqname(n.Host, n.Namespace, n.Model, n.Tag) ==> slastindex(rtY(n.Host, n.Namespace, n.Model), "/") == (len(n.Host) + len(n.Namespace) + 1)
+//@   assert-at return : fqname(n.Host, n.Namespace, n.Model, n.Tag) ==> seqx(rtY(n.Host, n.Namespace, n.Model)[slastindex(rtY(n.Host, n.Namespace, n.Model), "/")+1:len(rtY(n.Host, n.Namespace, n.Model))], n.Model) && seqx(rtY(n.Host, n.Namespace, n.Model)[0:slastindex(rtY(n.Host, n.Namespace, n.Model), "/")], rtZ(n.Host, n.Namespace))
+//@   assert-at return : fqname(n.Host, n.Namespace, n.Model, n.Tag) ==> rtY(n.Host, n.Namespace, n.Model)[slastindex(rtY(n.Host, n.Namespace, n.Model), "/")+1:len(rtY(n.Host, n.Namespace, n.Model))] == n.Model && rtY(n.Host, n.Namespace, n.Model)[0:slastindex(rtY(n.Host, n.Namespace, n.Model), "/")] == rtZ(n.Host, n.Namespace)
+//@   assert-at return : fqname(n.Host, n.Namespace, n.Model, n.Tag) ==> pnbcutafter(rtY(n.Host, n.Namespace, n.Model)) == n.Model && pnbcutbefore(rtY(n.Host, n.Namespace, n.Model)) == rtZ(n.Host, n.Namespace)
+//@   assert-at return : fqname(n.Host, n.Namespace, n.Model, n.Tag) ==> pnbmodel(result) == n.Model
+//@   assert-at return : fqname(n.Host, n.Namespace, n.Model, n.Tag) ==> pnbr2(result) == rtZ(n.Host, n.Namespace)
+//@   assert-at return : fqname(n.Host, n.Namespace, n.Model, n.Tag) ==> slastindex(rtZ(n.Host, n.Namespace), "/") == len(n.Host)
+//@   assert-at return : fqname(n.Host, n.Namespace, n.Model, n.Tag) ==> seqx(rtZ(n.Host, n.Namespace)[slastindex(rtZ(n.Host, n.Namespace), "/")+1:len(rtZ(n.Host, n.Namespace))], n.Namespace)
+//@   assert-at return : fqname(n.Host, n.Namespace, n.Model, n.Tag) ==> seqx(rtZ(n.Host, n.Namespace)[0:slastindex(rtZ(n.Host, n.Namespace), "/")], n.Host)
+//@   assert-at return : fqname(n.Host, n.Namespace, n.Model, n.Tag) ==> rtZ(n.Host, n.Namespace)[slastindex(rtZ(n.Host, n.Namespace), "/")+1:len(rtZ(n.Host, n.Namespace))] == n.Namespace && rtZ(n.Host, n.Namespace)[0:slastindex(rtZ(n.Host, n.Namespace), "/")] == n.Host
+//@   assert-at return : fqname(n.Host, n.Namespace, n.Model, n.Tag) ==> pnbcutafter(rtZ(n.Host, n.Namespace)) == n.Namespace && pnbcutbefore(rtZ(n.Host, n.Namespace)) == n.Host
+//@   assert-at return : fqname(n.Host, n.Namespace, n.Model, n.Tag) ==> pnbns(result) == n.Namespace
+//@   assert-at return : fqname(n.Host, n.Namespace, n.Model, n.Tag) ==> pnbr3(result) == n.Host
+//@   assert-at return : fqname(n.Host, n.Namespace, n.Model, n.Tag) ==> !scontains(n.Host, "://")
+//@   ensures fqname(n.Host, n.Namespace, n.Model, n.Tag) ==> pnbtag(result) == n.Tag && pnbmodel(result) == n.Model && pnbns(result) == n.Namespace && pnbhost(result) == n.Host
 
 // ===== C13 strengthening (audit): the parser, the defaults and the short printer are pinned down ====
 //
